@@ -114,6 +114,20 @@ func runC20(c *core.Ctx) {
 			c.Ev("undecodable")
 			return // decoding is C02/C05's subject
 		}
+		// the packet may have a history before it is cloned: a forwarder that already rewrote an extension
+		if t.Chance(1, 3) {
+			cp := *spec
+			cp.csrc = append([]uint32(nil), spec.csrc...)
+			cp.exts = nil
+			for _, e := range spec.exts {
+				cp.exts = append(cp.exts, extEl{e.id, append([]byte{}, e.val...)})
+			}
+			cp.payload = append([]byte{}, spec.payload...)
+			pre := &retained{spec: &cp, orig: &cp, cl: orig}
+			c20mutate(c, t, 4+t.Intn(3), true, &rtp.Packet{}, pre) // mutates orig (as "clone" of a dummy) and the model copy
+			spec = &cp
+			c.Probe("cloned-after-modification")
+		}
 		var cl *rtp.Packet
 		var hc rtp.Header
 		if c.Guard("rtp.Packet.Clone", func() { cl = orig.Clone(); hc = orig.Header.Clone() }) {
@@ -240,7 +254,16 @@ func runC20(c *core.Ctx) {
 				}
 			}
 		}
-		w.Send(datagram{frame: k, b: spec.encode(), meta: spec})
+		wireSpec := spec
+		if (spec.profile == profOneByte || spec.profile == profTwoByte) && len(spec.exts) >= 2 && t.Chance(1, 6) {
+			// a peer may repeat an id; such a packet parses and re-marshals byte-exactly (GetExtension sees the first)
+			cp := *spec
+			cp.exts = append([]extEl(nil), spec.exts...)
+			cp.exts[1+t.Intn(len(cp.exts)-1)].id = cp.exts[0].id
+			wireSpec = &cp
+			c.Probe("duplicate-extension-id")
+		}
+		w.Send(datagram{frame: k, b: wireSpec.encode(), meta: wireSpec})
 		loop.After(int64(100_000+t.Intn(10_000_000)), func() { send(k + 1) })
 	}
 	loop.After(0, func() { send(0) })
@@ -275,6 +298,14 @@ func c20mutate(c *core.Ctx, t *core.Tape, mut int, onClone bool, orig *rtp.Packe
 	c.Guard("rtp.Packet.Marshal", func() { before, _ = other.Marshal() })
 	m := r.spec
 	kind := ""
+	// with a repeated id the accessors address only the first element: keep to payload / CSRC mutations there
+	ids := map[uint8]bool{}
+	for _, e := range m.exts {
+		if ids[e.id] && mut >= 3 {
+			mut = 1 + mut%2
+		}
+		ids[e.id] = true
+	}
 	switch mut {
 	case 1: // payload byte
 		kind = "payload-byte"
@@ -397,7 +428,12 @@ func c20diff(c *core.Ctx, p *rtp.Packet, s *pktSpec) (string, string, string) {
 	if !bytes.Equal(ids, modelIDs(s.exts)) && !(len(ids) == 0 && len(s.exts) == 0) {
 		return "ExtensionIDs", fmt.Sprint(ids), fmt.Sprint(modelIDs(s.exts))
 	}
+	seenID := map[uint8]bool{}
 	for _, e := range s.exts {
+		if seenID[e.id] {
+			continue // GetExtension returns the first element with an id; later ones are covered by ids and Marshal bytes
+		}
+		seenID[e.id] = true
 		var v []byte
 		c.Guard("rtp.Header.GetExtension", func() { v = p.GetExtension(e.id) })
 		if !bytes.Equal(v, e.val) {
